@@ -102,6 +102,11 @@ def ops : List (String × Op) := [
   ("dist", do
       let a ← pPLoc; let b ← pPLoc; let ty ← pDist
       pure (showR toString (do let x ← a; let y ← b; distanceP x y ty))),
+  ("eqhash", do
+      let a ← pPLoc; let b ← pPLoc
+      pure (showR (fun (p : Bool × Bool) => showBool p.1 ++ " " ++ showBool p.2)
+        (do let x ← a; let y ← b
+            pure (eqHashP x y)))),
   ("reverse", unary reverseP),
   ("revstrand", unary reverseStrandP),
   ("resetstrand", do
